@@ -4,6 +4,7 @@ CONSTANTS
   DeepIds = {1, 2, 3, 4, 5}
   BaseIds = {1, 2, 3, 4, 5}
   KindIds = {1, 2, 3, 4, 5}
+  FinalKindIds = {}
   QuorumLowerBound = TRUE
   EmitScenarios = TRUE
 INVARIANTS CodeSound BasesAccepted Emit
